@@ -120,3 +120,738 @@ Proof.
     rewrite last_cons_ne by (intro E; apply app_eq_nil in E; destruct E as [_ E]; apply app_eq_nil in E; destruct E; congruence).
     rewrite app_assoc, last_snoc. reflexivity.
 Qed.
+
+(* ---------- big-step relational semantics of the parser model (fuel-free) ---------- *)
+Definition led_bin (l : led) (bp : Z) : option (N * Z) :=
+  match l with LBinL => Some (3%N, bp) | LBinR => Some (4%N, bp - 8) | LBinN => Some (2%N, bp) | _ => None end.
+
+Inductive judg :=
+| JExpr (rbp : Z) (ts : list token) (e : expr) (rest : list token)
+| JNud (n : nud) (bp : Z) (t : token) (ts : list token) (e : expr) (rest : list token)
+| JLoop (rbp : Z) (left : expr) (ts : list token) (e : expr) (rest : list token)
+| JLed (l : led) (bp : Z) (left : expr) (t : token) (ts : list token) (e : expr) (rest : list token)
+| JCall (callee : expr) (lp : token) (ts : list token) (e : expr) (rest : list token)
+| JElems (close : list N) (ts : list token) (es : list expr) (rest : list token)
+| JPairs (ts : list token) (kvs : list (expr * expr)) (rest : list token)
+| JFields (ts : list token) (fs : list (list N * expr)) (rest : list token)
+| JArgs (ts : list token) (es : list expr) (rest : list token).
+
+Section Run.
+  Variable g : grammar.
+
+  Inductive run : judg -> Prop :=
+  | R_expr : forall rbp ts bp n lft ts2 e rest,
+      get (t_kind (peek ts)) (g_prefix g) = Some (bp, n) ->
+      run (JNud n bp (peek ts) (tl ts) lft ts2) -> run (JLoop rbp lft ts2 e rest) ->
+      run (JExpr rbp ts e rest)
+  (* nud *)
+  | N_ident : forall bp t ts, run (JNud NIdent bp t ts (EIdent (tpos t) (t_lexeme t)) ts)
+  | N_true : forall bp t ts, run (JNud NTrue bp t ts (EBool (tpos t) true) ts)
+  | N_false : forall bp t ts, run (JNud NFalse bp t ts (EBool (tpos t) false) ts)
+  | N_num : forall bp t ts, num_parse (t_lexeme t) <> None -> run (JNud NNum bp t ts (ENum (tpos t) (t_lexeme t)) ts)
+  | N_str : forall bp t ts, str_value (t_lexeme t) <> None -> run (JNud NStr bp t ts (EStr (tpos t) (t_lexeme t)) ts)
+  | N_time : forall bp t ts, run (JNud NTime bp t ts (ETime (tpos t) (t_lexeme t)) ts)
+  | N_prefix : forall bp t ts e ts1 p,
+      run (JExpr bp ts e ts1) -> range (tpos t) (expr_pos e) = POk p ->
+      run (JNud NPrefix bp t ts (EUnary p (t_lexeme t) (tpos t) e true) ts1)
+  | N_group : forall bp t ts e ts1 rp ts2 p,
+      run (JExpr 0 ts e ts1) -> must_eat K_RPAREN ts1 = POk (rp, ts2) -> range (tpos t) (tpos rp) = POk p ->
+      run (JNud NGroup bp t ts (EGroup p e) ts2)
+  | N_obj : forall bp t ts fs ts1 rb ts2 p,
+      run (JFields ts fs ts1) -> must_eat K_RBRACE ts1 = POk (rb, ts2) -> range (tpos t) (tpos rb) = POk p ->
+      run (JNud NObj bp t ts (EObj p fs) ts2)
+  | N_map_empty : forall bp t ts c ts1 rb ts2 p,
+      try_eat K_COLON ts = Some (c, ts1) -> must_eat K_RBRACKET ts1 = POk (rb, ts2) -> range (tpos t) (tpos rb) = POk p ->
+      run (JNud NListMap bp t ts (EMap p []) ts2)
+  | N_list_empty : forall bp t ts rb ts1 p,
+      try_eat K_COLON ts = None -> kind_is (peek ts) K_RBRACKET = true ->
+      must_eat K_RBRACKET ts = POk (rb, ts1) -> range (tpos t) (tpos rb) = POk p ->
+      run (JNud NListMap bp t ts (EList p []) ts1)
+  | N_list1 : forall bp t ts e ts1 rb ts3 p,
+      try_eat K_COLON ts = None -> kind_is (peek ts) K_RBRACKET = false ->
+      run (JExpr 0 ts e ts1) -> try_eat K_COLON ts1 = None -> try_eat K_COMMA ts1 = None ->
+      must_eat K_RBRACKET ts1 = POk (rb, ts3) -> range (tpos t) (tpos rb) = POk p ->
+      run (JNud NListMap bp t ts (EList p [e]) ts3)
+  | N_listn : forall bp t ts e ts1 c ts2 es ts2' rb ts3 p,
+      try_eat K_COLON ts = None -> kind_is (peek ts) K_RBRACKET = false ->
+      run (JExpr 0 ts e ts1) -> try_eat K_COLON ts1 = None -> try_eat K_COMMA ts1 = Some (c, ts2) ->
+      run (JElems K_RBRACKET ts2 es ts2') ->
+      must_eat K_RBRACKET ts2' = POk (rb, ts3) -> range (tpos t) (tpos rb) = POk p ->
+      run (JNud NListMap bp t ts (EList p (e :: es)) ts3)
+  | N_map1 : forall bp t ts k ts1 c ts2 v ts3 rb ts5 p,
+      try_eat K_COLON ts = None -> kind_is (peek ts) K_RBRACKET = false ->
+      run (JExpr 0 ts k ts1) -> try_eat K_COLON ts1 = Some (c, ts2) -> run (JExpr 0 ts2 v ts3) ->
+      try_eat K_COMMA ts3 = None ->
+      must_eat K_RBRACKET ts3 = POk (rb, ts5) -> range (tpos t) (tpos rb) = POk p ->
+      run (JNud NListMap bp t ts (EMap p [(k, v)]) ts5)
+  | N_mapn : forall bp t ts k ts1 c ts2 v ts3 c2 ts4 kvs ts4' rb ts5 p,
+      try_eat K_COLON ts = None -> kind_is (peek ts) K_RBRACKET = false ->
+      run (JExpr 0 ts k ts1) -> try_eat K_COLON ts1 = Some (c, ts2) -> run (JExpr 0 ts2 v ts3) ->
+      try_eat K_COMMA ts3 = Some (c2, ts4) -> run (JPairs ts4 kvs ts4') ->
+      must_eat K_RBRACKET ts4' = POk (rb, ts5) -> range (tpos t) (tpos rb) = POk p ->
+      run (JNud NListMap bp t ts (EMap p ((k, v) :: kvs)) ts5)
+  (* loops *)
+  | E_close : forall close ts, kind_is (peek ts) close = true -> run (JElems close ts [] ts)
+  | E_last : forall close ts e ts1,
+      kind_is (peek ts) close = false -> run (JExpr 0 ts e ts1) -> try_eat K_COMMA ts1 = None ->
+      run (JElems close ts [e] ts1)
+  | E_more : forall close ts e ts1 c ts2 es rest,
+      kind_is (peek ts) close = false -> run (JExpr 0 ts e ts1) -> try_eat K_COMMA ts1 = Some (c, ts2) ->
+      run (JElems close ts2 es rest) -> run (JElems close ts (e :: es) rest)
+  | P_close : forall ts, kind_is (peek ts) K_RBRACKET = true -> run (JPairs ts [] ts)
+  | P_last : forall ts k ts1 c ts2 v ts3,
+      kind_is (peek ts) K_RBRACKET = false -> run (JExpr 0 ts k ts1) -> must_eat K_COLON ts1 = POk (c, ts2) ->
+      run (JExpr 0 ts2 v ts3) -> try_eat K_COMMA ts3 = None -> run (JPairs ts [(k, v)] ts3)
+  | P_more : forall ts k ts1 c ts2 v ts3 c2 ts4 kvs rest,
+      kind_is (peek ts) K_RBRACKET = false -> run (JExpr 0 ts k ts1) -> must_eat K_COLON ts1 = POk (c, ts2) ->
+      run (JExpr 0 ts2 v ts3) -> try_eat K_COMMA ts3 = Some (c2, ts4) -> run (JPairs ts4 kvs rest) ->
+      run (JPairs ts ((k, v) :: kvs) rest)
+  | F_close : forall ts, kind_is (peek ts) K_RBRACE = true -> run (JFields ts [] ts)
+  | F_last : forall ts nm ts1 c ts2 v ts3,
+      kind_is (peek ts) K_RBRACE = false -> must_eat K_SYM ts = POk (nm, ts1) -> must_eat K_COLON ts1 = POk (c, ts2) ->
+      run (JExpr 0 ts2 v ts3) -> try_eat K_COMMA ts3 = None -> run (JFields ts [(t_lexeme nm, v)] ts3)
+  | F_more : forall ts nm ts1 c ts2 v ts3 c2 ts4 fs rest,
+      kind_is (peek ts) K_RBRACE = false -> must_eat K_SYM ts = POk (nm, ts1) -> must_eat K_COLON ts1 = POk (c, ts2) ->
+      run (JExpr 0 ts2 v ts3) -> try_eat K_COMMA ts3 = Some (c2, ts4) -> run (JFields ts4 fs rest) ->
+      run (JFields ts ((t_lexeme nm, v) :: fs) rest)
+  | A_last : forall ts e ts1, run (JExpr 0 ts e ts1) -> try_eat K_COMMA ts1 = None -> run (JArgs ts [e] ts1)
+  | A_more : forall ts e ts1 c ts2 es rest,
+      run (JExpr 0 ts e ts1) -> try_eat K_COMMA ts1 = Some (c, ts2) -> run (JArgs ts2 es rest) ->
+      run (JArgs ts (e :: es) rest)
+  (* call *)
+  | C_empty : forall callee lp ts rp ts1 p,
+      try_eat K_RPAREN ts = Some (rp, ts1) -> range (expr_pos callee) (tpos rp) = POk p ->
+      run (JCall callee lp ts (ECall p (Z.of_N (t_col lp)) callee []) ts1)
+  | C_args : forall callee lp ts args ts1 rp ts2 p,
+      try_eat K_RPAREN ts = None -> run (JArgs ts args ts1) -> must_eat K_RPAREN ts1 = POk (rp, ts2) ->
+      range (expr_pos callee) (tpos rp) = POk p ->
+      run (JCall callee lp ts (ECall p (Z.of_N (t_col lp)) callee args) ts2)
+  (* led *)
+  | L_bin : forall l bp left t ts fx r x ts1 p,
+      led_bin l bp = Some (fx, r) -> run (JExpr r ts x ts1) -> range (expr_pos left) (expr_pos x) = POk p ->
+      run (JLed l bp left t ts (EBinary p (t_lexeme t) (tpos t) fx left x) ts1)
+  | L_postfix : forall bp left t ts p,
+      range (expr_pos left) (tpos t) = POk p ->
+      run (JLed LPostfix bp left t ts (EUnary p (t_lexeme t) (tpos t) left false) ts)
+  | L_question : forall bp left t ts m ts1 c ts2 r ts3 p,
+      run (JExpr 0 ts m ts1) -> must_eat K_COLON ts1 = POk (c, ts2) -> run (JExpr (bp - 8) ts2 r ts3) ->
+      range (expr_pos left) (expr_pos r) = POk p ->
+      run (JLed LQuestion bp left t ts (ETernary p (t_lexeme t) (tpos t) left m r) ts3)
+  | L_call : forall bp left t ts e rest, run (JCall left t ts e rest) -> run (JLed LCall bp left t ts e rest)
+  | L_sub : forall bp left t ts i ts1 rb ts2 p,
+      run (JExpr 0 ts i ts1) -> must_eat K_RBRACKET ts1 = POk (rb, ts2) -> range (expr_pos left) (tpos rb) = POk p ->
+      run (JLed LSubscript bp left t ts (ESub p (Z.of_N (t_col t)) left i) ts2)
+  | L_dot : forall bp left t ts p,
+      range (expr_pos left) (tpos (peek ts)) = POk p -> try_eat K_LPAREN (tl ts) = None ->
+      run (JLed LDot bp left t ts (EMember p (Z.of_N (t_col t)) left (t_lexeme (peek ts)) (tpos (peek ts))) (tl ts))
+  | L_dotcall : forall bp left t ts p lp ts2 e rest,
+      range (expr_pos left) (tpos (peek ts)) = POk p -> try_eat K_LPAREN (tl ts) = Some (lp, ts2) ->
+      run (JCall (EMember p (Z.of_N (t_col t)) left (t_lexeme (peek ts)) (tpos (peek ts))) lp ts2 e rest) ->
+      run (JLed LDot bp left t ts e rest)
+  (* infix loop *)
+  | Lp_stop : forall rbp left ts, Z.ltb rbp (infix_lbp g (peek ts)) = false -> run (JLoop rbp left ts left ts)
+  | Lp_step : forall rbp left ts bp l left' ts2 e rest,
+      Z.ltb rbp (infix_lbp g (peek ts)) = true -> get (t_kind (peek ts)) (g_infix g) = Some (bp, l) ->
+      run (JLed l bp left (peek ts) (tl ts) left' ts2) -> infix_n_ok left' = true ->
+      run (JLoop rbp left' ts2 e rest) -> run (JLoop rbp left ts e rest).
+
+  Lemma eat_peek_tl : forall ts, eat ts = (peek ts, tl ts).
+  Proof. intros [|t r]; reflexivity. Qed.
+End Run.
+
+(* ---------- the functions compute the relation ---------- *)
+Ltac inv H := inversion H; subst; clear H.
+
+Lemma pbind_ok : forall {X Y} (r : pres X) (f : X -> pres Y) y,
+  pbind r f = POk y -> exists x, r = POk x /\ f x = POk y.
+Proof. intros X Y [x| |] f y H; cbn in H; try discriminate. eauto. Qed.
+
+Ltac bind_inv H :=
+  let x := fresh "x" in let Hx := fresh "Hx" in
+  apply pbind_ok in H; destruct H as [x [Hx H]].
+
+Section FnRun.
+  Variable g : grammar.
+  Variable rec : Z -> list token -> pres (expr * list token).
+  Hypothesis Hrec : forall rbp ts e rest, rec rbp ts = POk (e, rest) -> run g (JExpr rbp ts e rest).
+
+  Lemma elems_loop_run : forall n close ts acc res rest,
+    elems_loop rec n close ts acc = POk (res, rest) ->
+    exists es, res = rev acc ++ es /\ run g (JElems close ts es rest).
+  Proof.
+    induction n as [|n IH]; intros close ts acc res rest H; cbn [elems_loop] in H; [discriminate|].
+    destruct (kind_is (peek ts) close) eqn:Hc.
+    - inv H. exists []. rewrite app_nil_r. split; [reflexivity | constructor; exact Hc].
+    - bind_inv H. destruct x as [e ts1]. destruct (try_eat K_COMMA ts1) as [[c ts2]|] eqn:Hcm.
+      + apply IH in H. destruct H as [es [-> Hr]]. exists (e :: es). split.
+        * cbn [rev]. rewrite <- app_assoc. reflexivity.
+        * eapply E_more; eauto.
+      + inv H. exists [e]. split; [reflexivity | eapply E_last; eauto].
+  Qed.
+
+  Lemma pairs_loop_run : forall n ts acc res rest,
+    pairs_loop rec n ts acc = POk (res, rest) ->
+    exists kvs, res = rev acc ++ kvs /\ run g (JPairs ts kvs rest).
+  Proof.
+    induction n as [|n IH]; intros ts acc res rest H; cbn [pairs_loop] in H; [discriminate|].
+    destruct (kind_is (peek ts) K_RBRACKET) eqn:Hc.
+    - inv H. exists []. rewrite app_nil_r. split; [reflexivity | constructor; exact Hc].
+    - bind_inv H. destruct x as [k ts1]. bind_inv H. destruct x as [c ts2]. bind_inv H. destruct x as [v ts3].
+      destruct (try_eat K_COMMA ts3) as [[c2 ts4]|] eqn:Hcm.
+      + apply IH in H. destruct H as [kvs [-> Hr]]. exists ((k, v) :: kvs). split.
+        * cbn [rev]. rewrite <- app_assoc. reflexivity.
+        * eapply P_more; eauto.
+      + inv H. exists [(k, v)]. split; [reflexivity | eapply P_last; eauto].
+  Qed.
+
+  Lemma fields_loop_run : forall n ts acc res rest,
+    fields_loop rec n ts acc = POk (res, rest) ->
+    exists fs, res = rev acc ++ fs /\ run g (JFields ts fs rest).
+  Proof.
+    induction n as [|n IH]; intros ts acc res rest H; cbn [fields_loop] in H; [discriminate|].
+    destruct (kind_is (peek ts) K_RBRACE) eqn:Hc.
+    - inv H. exists []. rewrite app_nil_r. split; [reflexivity | constructor; exact Hc].
+    - bind_inv H. destruct x as [nm ts1]. bind_inv H. destruct x as [c ts2]. bind_inv H. destruct x as [v ts3].
+      destruct (try_eat K_COMMA ts3) as [[c2 ts4]|] eqn:Hcm.
+      + apply IH in H. destruct H as [fs [-> Hr]]. exists ((t_lexeme nm, v) :: fs). split.
+        * cbn [rev]. rewrite <- app_assoc. reflexivity.
+        * eapply F_more; eauto.
+      + inv H. exists [(t_lexeme nm, v)]. split; [reflexivity | eapply F_last; eauto].
+  Qed.
+
+  Lemma args_loop_run : forall n ts acc res rest,
+    args_loop rec n ts acc = POk (res, rest) ->
+    exists es, res = rev acc ++ es /\ run g (JArgs ts es rest).
+  Proof.
+    induction n as [|n IH]; intros ts acc res rest H; cbn [args_loop] in H; [discriminate|].
+    bind_inv H. destruct x as [e ts1]. destruct (try_eat K_COMMA ts1) as [[c ts2]|] eqn:Hcm.
+    - apply IH in H. destruct H as [es [-> Hr]]. exists (e :: es). split.
+      + cbn [rev]. rewrite <- app_assoc. reflexivity.
+      + eapply A_more; eauto.
+    - inv H. exists [e]. split; [reflexivity | eapply A_last; eauto].
+  Qed.
+
+  Lemma parse_call_run : forall callee lp ts e rest,
+    parse_call rec callee lp ts = POk (e, rest) -> run g (JCall callee lp ts e rest).
+  Proof.
+    intros callee lp ts e rest H. unfold parse_call in H.
+    bind_inv H. destruct x as [[args rp] ts']. bind_inv H. inv H.
+    destruct (try_eat K_RPAREN ts) as [[rp1 ts1]|] eqn:Hrp.
+    - inv Hx. eapply C_empty; eauto.
+    - bind_inv Hx. destruct x0 as [args1 ts1]. bind_inv Hx. destruct x0 as [rp2 ts2]. inv Hx.
+      apply args_loop_run in Hx1. destruct Hx1 as [es [-> Hr]]. cbn [rev app].
+      eapply C_args; eauto.
+  Qed.
+
+  Lemma nud_fn_run : forall n bp t ts e rest,
+    nud_fn rec n bp t ts = POk (e, rest) -> run g (JNud n bp t ts e rest).
+  Proof.
+    intros n bp t ts e rest H. destruct n; cbn [nud_fn] in H.
+    - inv H. constructor.
+    - inv H. constructor.
+    - inv H. constructor.
+    - destruct (num_parse (t_lexeme t)) eqn:E; inv H. constructor. congruence.
+    - destruct (str_value (t_lexeme t)) eqn:E; inv H. constructor. congruence.
+    - inv H. constructor.
+    - (* listmap *)
+      destruct (try_eat K_COLON ts) as [[c ts1]|] eqn:Hcol.
+      + bind_inv H. destruct x as [rb ts2]. bind_inv H. inv H. eapply N_map_empty; eauto.
+      + destruct (kind_is (peek ts) K_RBRACKET) eqn:Hrb.
+        * bind_inv H. destruct x as [rb ts1]. bind_inv H. inv H. eapply N_list_empty; eauto.
+        * bind_inv H. destruct x as [e1 ts1].
+          destruct (try_eat K_COLON ts1) as [[c ts2]|] eqn:Hcol1.
+          -- bind_inv H. destruct x as [v ts3]. bind_inv H. destruct x as [kvs ts4].
+             bind_inv H. destruct x as [rb ts5]. bind_inv H. inv H.
+             destruct (try_eat K_COMMA ts3) as [[c2 ts4']|] eqn:Hcm.
+             ++ apply pairs_loop_run in Hx1. destruct Hx1 as [kvs' [-> Hr]]. cbn [rev app].
+                eapply N_mapn; eauto.
+             ++ inv Hx1. eapply N_map1; eauto.
+          -- bind_inv H. destruct x as [es ts2]. bind_inv H. destruct x as [rb ts3]. bind_inv H. inv H.
+             destruct (try_eat K_COMMA ts1) as [[c2 ts2']|] eqn:Hcm.
+             ++ apply elems_loop_run in Hx0. destruct Hx0 as [es' [-> Hr]]. cbn [rev app].
+                eapply N_listn; eauto.
+             ++ inv Hx0. eapply N_list1; eauto.
+    - (* obj *)
+      bind_inv H. destruct x as [fs ts1]. bind_inv H. destruct x as [rb ts2]. bind_inv H. inv H.
+      apply fields_loop_run in Hx. destruct Hx as [fs' [-> Hr]]. cbn [rev app]. eapply N_obj; eauto.
+    - bind_inv H. destruct x as [e1 ts1]. bind_inv H. destruct x as [rp ts2]. bind_inv H. inv H.
+      eapply N_group; eauto.
+    - bind_inv H. destruct x as [e1 ts1]. bind_inv H. inv H. eapply N_prefix; eauto.
+  Qed.
+
+  Lemma led_fn_run : forall l bp left t ts e rest,
+    led_fn rec l bp left t ts = POk (e, rest) -> run g (JLed l bp left t ts e rest).
+  Proof.
+    intros l bp left t ts e rest H. destruct l; cbn [led_fn] in H.
+    - bind_inv H. destruct x as [r ts1]. bind_inv H. inv H. eapply L_bin; eauto. reflexivity.
+    - bind_inv H. destruct x as [r ts1]. bind_inv H. inv H. eapply L_bin; eauto. reflexivity.
+    - bind_inv H. destruct x as [r ts1]. bind_inv H. inv H. eapply L_bin; eauto. reflexivity.
+    - bind_inv H. inv H. eapply L_postfix; eauto.
+    - bind_inv H. destruct x as [m ts1]. bind_inv H. destruct x as [c ts2]. bind_inv H. destruct x as [r ts3].
+      bind_inv H. inv H. eapply L_question; eauto.
+    - rewrite eat_peek_tl in H. bind_inv H.
+      destruct (try_eat K_LPAREN (tl ts)) as [[lp ts2]|] eqn:Hlp.
+      + eapply L_dotcall; eauto. apply parse_call_run; exact H.
+      + inv H. eapply L_dot; eauto.
+    - apply L_call. apply parse_call_run; exact H.
+    - bind_inv H. destruct x as [i ts1]. bind_inv H. destruct x as [rb ts2]. bind_inv H. inv H.
+      eapply L_sub; eauto.
+  Qed.
+
+  Lemma infix_loop_run : forall n rbp left ts e rest,
+    infix_loop g rec n rbp left ts = POk (e, rest) -> run g (JLoop rbp left ts e rest).
+  Proof.
+    induction n as [|n IH]; intros rbp left ts e rest H; cbn [infix_loop] in H; [discriminate|].
+    destruct (Z.ltb rbp (infix_lbp g (peek ts))) eqn:Hlt.
+    - rewrite eat_peek_tl in H. destruct (get (t_kind (peek ts)) (g_infix g)) as [[bp l]|] eqn:Hg; [|discriminate].
+      bind_inv H. destruct x as [left' ts2]. destruct (infix_n_ok left') eqn:Hok; [|discriminate].
+      eapply Lp_step; eauto. apply led_fn_run; exact Hx.
+    - inv H. apply Lp_stop; exact Hlt.
+  Qed.
+
+  Lemma expr_step_run : forall rbp ts e rest,
+    expr_step g rec rbp ts = POk (e, rest) -> run g (JExpr rbp ts e rest).
+  Proof.
+    intros rbp ts e rest H. unfold expr_step in H. rewrite eat_peek_tl in H.
+    destruct (get (t_kind (peek ts)) (g_prefix g)) as [[bp n]|] eqn:Hg; [|discriminate].
+    bind_inv H. destruct x as [lft ts2].
+    eapply R_expr; eauto. apply nud_fn_run; exact Hx. apply infix_loop_run in H; exact H.
+  Qed.
+End FnRun.
+
+Lemma p_expr_run : forall g f rbp ts e rest,
+  p_expr g f rbp ts = POk (e, rest) -> run g (JExpr rbp ts e rest).
+Proof.
+  induction f as [|f IH]; intros rbp ts e rest H; cbn [p_expr] in H; [discriminate|].
+  eapply expr_step_run; [|exact H]. exact IH.
+Qed.
+
+(* ---------- stage 2: non-associative operators are never chained ---------- *)
+Definition nnc := no_nonassoc_chain.
+
+Definition P_nnc (j : judg) : Prop :=
+  match j with
+  | JExpr _ _ e _ => nnc e = true
+  | JNud _ _ _ _ e _ => nnc e = true
+  | JLoop _ lft _ e _ => nnc lft = true -> nnc e = true
+  | JLed _ _ lft _ _ e _ => nnc lft = true -> infix_n_ok e = true -> nnc e = true
+  | JCall callee _ _ e _ => nnc callee = true -> nnc e = true
+  | JElems _ _ es _ => forallb nnc es = true
+  | JPairs _ kvs _ => forallb (fun kv => nnc (fst kv) && nnc (snd kv)) kvs = true
+  | JFields _ fs _ => forallb (fun f => nnc (snd f)) fs = true
+  | JArgs _ es _ => forallb nnc es = true
+  end.
+
+Lemma run_nnc : forall g j, run g j -> P_nnc j.
+Proof.
+  intros g j H. induction H; cbn [P_nnc] in *; unfold nnc in *; cbn [no_nonassoc_chain forallb fst snd] in *;
+    repeat match goal with H : ?x = true |- context [?x] => rewrite H end; cbn [andb]; auto.
+  - intros Hl. rewrite Hl. reflexivity.
+  - intros Hl. rewrite Hl. reflexivity.
+  - (* bin *) intros Hl Hok. rewrite Hl.
+    destruct l; cbn in H; inv H; cbn [N.eqb Pos.eqb andb]; try reflexivity.
+    unfold same_binary. cbn [infix_n_ok] in Hok. rewrite Hok. reflexivity.
+  - intros Hl _. rewrite Hl. reflexivity.
+  - intros Hl _. rewrite Hl. reflexivity.
+Qed.
+
+Lemma parse_nonassoc : forall ops ts e,
+  parse_tokens ops ts = POk e -> no_nonassoc_chain e = true.
+Proof.
+  intros ops ts e H. unfold parse_tokens in H. bind_inv H. destruct x as [e1 rest].
+  destruct rest; inv H. apply p_expr_run in Hx. apply run_nnc in Hx. exact Hx.
+Qed.
+
+(* ---------- tables: list_eqb, get/put, new_grammar ---------- *)
+Lemma list_eqb_eq : forall a b, list_eqb a b = true <-> a = b.
+Proof.
+  induction a as [|x a IH]; intros [|y b]; cbn [list_eqb]; split; intro H; try discriminate; try reflexivity.
+  - apply andb_true_iff in H. destruct H as [H1 H2]. apply N.eqb_eq in H1. apply IH in H2. congruence.
+  - inv H. rewrite N.eqb_refl. cbn. apply IH. reflexivity.
+Qed.
+
+Lemma list_eqb_refl : forall a, list_eqb a a = true.
+Proof. intro a. apply list_eqb_eq. reflexivity. Qed.
+
+Lemma list_eqb_neq : forall a b, list_eqb a b = false <-> a <> b.
+Proof.
+  intros a b. split.
+  - intros H E. apply list_eqb_eq in E. congruence.
+  - intro H. destruct (list_eqb a b) eqn:E; [|reflexivity]. apply list_eqb_eq in E. contradiction.
+Qed.
+
+Lemma list_eqb_sym : forall a b, list_eqb a b = list_eqb b a.
+Proof.
+  intros a b. destruct (list_eqb a b) eqn:E.
+  - apply list_eqb_eq in E. subst. symmetry. apply list_eqb_refl.
+  - symmetry. apply list_eqb_neq. apply list_eqb_neq in E. congruence.
+Qed.
+
+Lemma get_put : forall {X} k k' (x : X) l,
+  get k (put k' x l) = if list_eqb k k' then Some x else get k l.
+Proof.
+  intros X k k' x l. induction l as [|[k2 x2] r IH]; cbn [put get].
+  - reflexivity.
+  - destruct (list_eqb k' k2) eqn:E.
+    + apply list_eqb_eq in E. subst k2. cbn [get]. destruct (list_eqb k k'); reflexivity.
+    + cbn [get]. rewrite IH. destruct (list_eqb k k2) eqn:E2; [|reflexivity].
+      destruct (list_eqb k k') eqn:E3; [|reflexivity].
+      apply list_eqb_eq in E2. apply list_eqb_eq in E3. subst. rewrite list_eqb_refl in E. discriminate.
+Qed.
+
+Lemma in_insert_by_len : forall {X} key (x o : X) l, In o (insert_by_len key x l) -> o = x \/ In o l.
+Proof.
+  intros X key x o l. induction l as [|y r IH]; cbn [insert_by_len]; intro H.
+  - destruct H as [H|[]]. left. congruence.
+  - destruct (Nat.leb (key y) (key x)).
+    + destruct H as [H|H]; [left; congruence | right; exact H].
+    + destruct H as [H|H]; [right; left; exact H|]. apply IH in H. destruct H; [left | right; right]; assumption.
+Qed.
+
+Lemma in_sort_ops : forall {X} key (o : X) l, In o (sort_ops key l) -> In o l.
+Proof.
+  intros X key o l. unfold sort_ops. induction l as [|x r IH]; cbn [fold_right]; intro H; [exact H|].
+  apply in_insert_by_len in H. destruct H as [H|H]; [left; congruence | right; apply IH; exact H].
+Qed.
+
+Definition ng_p0 : list (list N * (Z * nud)) :=
+  fold_left (fun acc kn => put (fst kn) (BP_NONE, snd kn) acc)
+    [(K_SYM, NIdent); (K_TRUE, NTrue); (K_FALSE, NFalse); (K_NUM, NNum); (K_STR, NStr); (K_TIME, NTime);
+     (K_LBRACKET, NListMap); (K_LBRACE, NObj); (K_LPAREN, NGroup)] [].
+
+Definition ng_step : (list (list N * (Z * nud)) * list (list N * (Z * led))) -> operator ->
+                     (list (list N * (Z * nud)) * list (list N * (Z * led))) :=
+  fun '(p, i) o =>
+    match o_fix o with
+    | 1%N => (put (o_kind o) (o_bp o, NPrefix) p, i)
+    | 2%N => (p, put (o_kind o) (o_bp o, LBinN) i)
+    | 3%N => (p, put (o_kind o) (o_bp o, LBinL) i)
+    | 4%N => (p, put (o_kind o) (o_bp o, LBinR) i)
+    | 5%N => (p, put (o_kind o) (o_bp o, LPostfix) i)
+    | _ => (p, i)
+    end.
+
+Definition ng_fixed_infix (i1 : list (list N * (Z * led))) :=
+  put K_LBRACKET (BP_MEMBER, LSubscript)
+    (put K_LPAREN (BP_CALL, LCall) (put K_DOT (BP_MEMBER, LDot) (put K_QUESTION (BP_COND, LQuestion) i1))).
+
+Lemma new_grammar_eq : forall ops,
+  new_grammar ops =
+  let pi := fold_left ng_step (sort_ops (fun o => byte_len (o_kind o)) ops) (ng_p0, []) in
+  mkGrammar (fst pi) (ng_fixed_infix (snd pi)).
+Proof.
+  intro ops. unfold new_grammar. fold ng_p0. fold ng_step.
+  destruct (fold_left ng_step (sort_ops (fun o => byte_len (o_kind o)) ops) (ng_p0, [])) as [p1 i1].
+  reflexivity.
+Qed.
+
+Definition led_of_fix (fx : N) : option led :=
+  match fx with 2%N => Some LBinN | 3%N => Some LBinL | 4%N => Some LBinR | 5%N => Some LPostfix | _ => None end.
+
+Lemma ng_fold_prefix : forall l p i k bp n,
+  get k (fst (fold_left ng_step l (p, i))) = Some (bp, n) ->
+  get k p = Some (bp, n) \/ (n = NPrefix /\ exists o, In o l /\ o_kind o = k /\ o_bp o = bp /\ o_fix o = 1%N).
+Proof.
+  induction l as [|o l IH]; intros p i k bp n H; cbn [fold_left] in H.
+  - left. exact H.
+  - assert (Hstep : exists p' i', ng_step (p, i) o = (p', i') /\
+              (p' = p \/ (o_fix o = 1%N /\ p' = put (o_kind o) (o_bp o, NPrefix) p))).
+    { unfold ng_step. destruct (o_fix o) as [|[q|q|]]; try (do 2 eexists; split; [reflexivity|left; reflexivity]).
+      - destruct q as [q|q|]; try destruct q; do 2 eexists; (split; [reflexivity|left; reflexivity]).
+      - destruct q as [q|q|]; try destruct q; do 2 eexists; (split; [reflexivity|left; reflexivity]).
+      - do 2 eexists; split; [reflexivity|right; split; reflexivity]. }
+    destruct Hstep as [p' [i' [E Hp]]]. rewrite E in H. apply IH in H.
+    destruct H as [H|[Hn [o' [Hin Ho']]]].
+    + destruct Hp as [->|[Hfix ->]]; [left; exact H|].
+      rewrite get_put in H. destruct (list_eqb k (o_kind o)) eqn:Ek; [|left; exact H].
+      inv H. right. split; [reflexivity|]. exists o. apply list_eqb_eq in Ek. subst. cbn. auto.
+    + right. split; [exact Hn|]. exists o'. split; [right; exact Hin | exact Ho'].
+Qed.
+
+Lemma ng_fold_infix : forall l p i k bp ld,
+  get k (snd (fold_left ng_step l (p, i))) = Some (bp, ld) ->
+  get k i = Some (bp, ld) \/ (exists o, In o l /\ o_kind o = k /\ o_bp o = bp /\ led_of_fix (o_fix o) = Some ld).
+Proof.
+  induction l as [|o l IH]; intros p i k bp ld H; cbn [fold_left] in H.
+  - left. exact H.
+  - assert (Hstep : exists p' i', ng_step (p, i) o = (p', i') /\
+              (i' = i \/ (exists ld', led_of_fix (o_fix o) = Some ld' /\ i' = put (o_kind o) (o_bp o, ld') i))).
+    { unfold ng_step. destruct (o_fix o) as [|[q|q|]]; try (do 2 eexists; split; [reflexivity|left; reflexivity]).
+      - destruct q as [q|q|]; try destruct q; do 2 eexists; (split; [reflexivity|]);
+          try (left; reflexivity); right; eexists; split; reflexivity.
+      - destruct q as [q|q|]; try destruct q; do 2 eexists; (split; [reflexivity|]);
+          try (left; reflexivity); right; eexists; split; reflexivity. }
+    destruct Hstep as [p' [i' [E Hi]]]. rewrite E in H. apply IH in H.
+    destruct H as [H|[o' [Hin Ho']]].
+    + destruct Hi as [->|[ld' [Hfix ->]]]; [left; exact H|].
+      rewrite get_put in H. destruct (list_eqb k (o_kind o)) eqn:Ek; [|left; exact H].
+      inv H. right. exists o. apply list_eqb_eq in Ek. subst. cbn. auto.
+    + right. exists o'. split; [right; apply Hin | exact Ho'].
+Qed.
+
+Lemma ng_fold_untouched : forall l p i k,
+  (forall o, In o l -> list_eqb k (o_kind o) = false) ->
+  get k (fst (fold_left ng_step l (p, i))) = get k p /\ get k (snd (fold_left ng_step l (p, i))) = get k i.
+Proof.
+  induction l as [|o l IH]; intros p i k Hk; cbn [fold_left].
+  - split; reflexivity.
+  - assert (Ho : list_eqb k (o_kind o) = false) by (apply Hk; left; reflexivity).
+    assert (Hstep : exists p' i', ng_step (p, i) o = (p', i') /\ get k p' = get k p /\ get k i' = get k i).
+    { unfold ng_step.
+      destruct (o_fix o) as [|[q|q|]]; try (do 2 eexists; split; [reflexivity|split; reflexivity]).
+      - destruct q as [q|q|]; try destruct q; do 2 eexists; (split; [reflexivity|]);
+          rewrite ?get_put, ?Ho; split; reflexivity.
+      - destruct q as [q|q|]; try destruct q; do 2 eexists; (split; [reflexivity|]);
+          rewrite ?get_put, ?Ho; split; reflexivity.
+      - do 2 eexists; (split; [reflexivity|]); rewrite ?get_put, ?Ho; split; reflexivity. }
+    destruct Hstep as [p' [i' [E [H1 H2]]]]. rewrite E.
+    destruct (IH p' i' k) as [H3 H4]. { intros o' Hin. apply Hk. right. exact Hin. }
+    rewrite H3, H4. split; assumption.
+Qed.
+
+Definition no_eof_operator (ops : list operator) : bool := forallb (fun o => negb (list_eqb (o_kind o) K_EOF)) ops.
+
+Lemma no_eof_operator_grammar : forall ops, no_eof_operator ops = true ->
+  get K_EOF (g_prefix (new_grammar ops)) = None /\ get K_EOF (g_infix (new_grammar ops)) = None.
+Proof.
+  intros ops H. rewrite new_grammar_eq. cbn [g_prefix g_infix].
+  destruct (ng_fold_untouched (sort_ops (fun o => byte_len (o_kind o)) ops) ng_p0 [] K_EOF) as [H1 H2].
+  { intros o Hin. apply in_sort_ops in Hin. unfold no_eof_operator in H. rewrite forallb_forall in H.
+    apply H in Hin. rewrite list_eqb_sym. destruct (list_eqb (o_kind o) K_EOF); [discriminate | reflexivity]. }
+  split.
+  - rewrite H1. reflexivity.
+  - unfold ng_fixed_infix. rewrite !get_put, H2. reflexivity.
+Qed.
+
+Lemma table_ok_no_eof_operator : forall ops, table_ok ops = true -> no_eof_operator ops = true.
+Proof.
+  intros ops H. unfold table_ok in H. unfold no_eof_operator. rewrite forallb_forall in *.
+  intros o Hin. apply H in Hin. apply andb_true_iff in Hin. destruct Hin as [Hin _].
+  destruct (list_eqb (o_kind o) K_EOF) eqn:E; [|reflexivity].
+  cbn [existsb fixed_kinds] in Hin. rewrite E in Hin. rewrite !orb_true_r in Hin. discriminate.
+Qed.
+
+(* ---------- token consumption ---------- *)
+Lemma must_eat_inv : forall k ts t r, must_eat k ts = POk (t, r) -> t = peek ts /\ r = tl ts /\ kind_is (peek ts) k = true.
+Proof.
+  intros k ts t r H. unfold must_eat in H. rewrite eat_peek_tl in H.
+  destruct (kind_is (peek ts) k) eqn:E; inv H. auto.
+Qed.
+
+Lemma try_eat_some : forall k ts t r, try_eat k ts = Some (t, r) -> t = peek ts /\ r = tl ts /\ kind_is (peek ts) k = true.
+Proof.
+  intros k ts t r H. unfold try_eat in H. rewrite eat_peek_tl in H.
+  destruct (kind_is (peek ts) k) eqn:E; inv H. auto.
+Qed.
+
+Lemma try_eat_none : forall k ts, try_eat k ts = None -> kind_is (peek ts) k = false.
+Proof. intros k ts H. unfold try_eat in H. destruct (kind_is (peek ts) k); [discriminate | reflexivity]. Qed.
+
+Lemma len_tl : forall (ts : list token), (len (tl ts) <= len ts)%nat.
+Proof. intros [|t r]; cbn; lia. Qed.
+
+Lemma must_eat_len : forall k ts t r, must_eat k ts = POk (t, r) -> (len r <= len ts)%nat.
+Proof. intros k ts t r H. apply must_eat_inv in H. destruct H as [_ [-> _]]. apply len_tl. Qed.
+
+Lemma try_eat_len : forall k ts t r, try_eat k ts = Some (t, r) -> (len r <= len ts)%nat.
+Proof. intros k ts t r H. apply try_eat_some in H. destruct H as [_ [-> _]]. apply len_tl. Qed.
+
+Ltac len_facts :=
+  repeat match goal with
+  | H : must_eat _ _ = POk (_, _) |- _ => apply must_eat_len in H
+  | H : try_eat _ _ = Some (_, _) |- _ => apply try_eat_len in H
+  end.
+
+Definition P_len (j : judg) : Prop :=
+  match j with
+  | JExpr _ ts _ rest => (len rest < len ts)%nat
+  | JNud _ _ _ ts _ rest => (len rest <= len ts)%nat
+  | JLoop _ _ ts _ rest => (len rest <= len ts)%nat
+  | JLed _ _ _ _ ts _ rest => (len rest <= len ts)%nat
+  | JCall _ _ ts _ rest => (len rest <= len ts)%nat
+  | JElems _ ts _ rest => (len rest <= len ts)%nat
+  | JPairs ts _ rest => (len rest <= len ts)%nat
+  | JFields ts _ rest => (len rest <= len ts)%nat
+  | JArgs ts _ rest => (len rest <= len ts)%nat
+  end.
+
+Definition eof_free (g : grammar) : Prop :=
+  get K_EOF (g_prefix g) = None /\ get K_EOF (g_infix g) = None.
+
+Lemma run_len : forall g j, eof_free g -> run g j -> P_len j.
+Proof.
+  intros g j [Hp Hi] H. induction H; cbn [P_len] in *; len_facts.
+  1: { destruct ts as [|t0 r0]; [change (get K_EOF (g_prefix g) = Some (bp, n)) in H; rewrite Hp in H; discriminate|].
+       cbn [tl] in *. unfold len in *. cbn [Datatypes.length]. lia. }
+  all: repeat match goal with
+           | |- context [len (tl ?ts)] => pose proof (len_tl ts); generalize dependent (len (tl ts)); intros
+           | H : context [len (tl ?ts)] |- _ => pose proof (len_tl ts); generalize dependent (len (tl ts)); intros
+           end; lia.
+Qed.
+
+Lemma run_len_expr : forall g rbp ts e rest, eof_free g -> run g (JExpr rbp ts e rest) -> (len rest < len ts)%nat.
+Proof. intros g rbp ts e rest Hg H. apply (run_len g _ Hg H). Qed.
+
+(* ---------- stage 3: the fuel suffices ---------- *)
+Lemma pbind_nf : forall {X Y} (r : pres X) (k : X -> pres Y),
+  r <> PFuel -> (forall x, r = POk x -> k x <> PFuel) -> pbind r k <> PFuel.
+Proof. intros X Y [x| |] k H1 H2; cbn; [apply H2; reflexivity | discriminate | exfalso; apply H1; reflexivity]. Qed.
+
+Lemma must_eat_nf : forall k ts, must_eat k ts <> PFuel.
+Proof. intros k ts. unfold must_eat. destruct (eat ts) as [t r]. destruct (kind_is t k); discriminate. Qed.
+
+Lemma range_nf : forall a b, range a b <> PFuel.
+Proof. intros a b. unfold range. destruct (Z.leb (p_idx a) (p_idx b)); discriminate. Qed.
+
+Section NoFuel.
+  Variable g : grammar.
+  Hypothesis Hg : eof_free g.
+  Variable rec : Z -> list token -> pres (expr * list token).
+  Variable B : nat.
+  Hypothesis Hrec_run : forall rbp ts e rest, rec rbp ts = POk (e, rest) -> run g (JExpr rbp ts e rest).
+  Hypothesis Hrec_nf : forall rbp ts, (len ts < B)%nat -> rec rbp ts <> PFuel.
+
+  Lemma rec_len : forall rbp ts e rest, rec rbp ts = POk (e, rest) -> (len rest < len ts)%nat.
+  Proof. intros rbp ts e rest H. apply Hrec_run in H. eapply run_len_expr; eauto. Qed.
+
+  Ltac step_rec :=
+    apply pbind_nf; [apply Hrec_nf; lia |];
+    let x := fresh "x" in let e := fresh "e" in let ts' := fresh "ts" in let Hx := fresh "Hx" in
+    intros [e ts'] Hx; apply rec_len in Hx.
+  Ltac step_eat :=
+    apply pbind_nf; [apply must_eat_nf |];
+    let t := fresh "t" in let ts' := fresh "ts" in let Hx := fresh "Hx" in
+    intros [t ts'] Hx; apply must_eat_len in Hx.
+  Ltac step_range := apply pbind_nf; [apply range_nf | intros ? _].
+
+  Lemma elems_loop_nf : forall n close ts acc,
+    (len ts < n)%nat -> (len ts < B)%nat -> elems_loop rec n close ts acc <> PFuel.
+  Proof.
+    induction n as [|n IH]; intros close ts acc Hn HB; [lia|]. cbn [elems_loop].
+    destruct (kind_is (peek ts) close); [discriminate|].
+    step_rec. destruct (try_eat K_COMMA ts0) as [[c ts2]|] eqn:Hc; [|discriminate].
+    apply try_eat_len in Hc. apply IH; lia.
+  Qed.
+
+  Lemma pairs_loop_nf : forall n ts acc,
+    (len ts < n)%nat -> (len ts < B)%nat -> pairs_loop rec n ts acc <> PFuel.
+  Proof.
+    induction n as [|n IH]; intros ts acc Hn HB; [lia|]. cbn [pairs_loop].
+    destruct (kind_is (peek ts) K_RBRACKET); [discriminate|].
+    step_rec. step_eat. step_rec. destruct (try_eat K_COMMA ts2) as [[c ts4]|] eqn:Hc; [|discriminate].
+    apply try_eat_len in Hc. apply IH; lia.
+  Qed.
+
+  Lemma fields_loop_nf : forall n ts acc,
+    (len ts < n)%nat -> (len ts < B)%nat -> fields_loop rec n ts acc <> PFuel.
+  Proof.
+    induction n as [|n IH]; intros ts acc Hn HB; [lia|]. cbn [fields_loop].
+    destruct (kind_is (peek ts) K_RBRACE); [discriminate|].
+    step_eat. step_eat. step_rec. destruct (try_eat K_COMMA ts2) as [[c ts4]|] eqn:Hc; [|discriminate].
+    apply try_eat_len in Hc. apply IH; lia.
+  Qed.
+
+  Lemma args_loop_nf : forall n ts acc,
+    (len ts < n)%nat -> (len ts < B)%nat -> args_loop rec n ts acc <> PFuel.
+  Proof.
+    induction n as [|n IH]; intros ts acc Hn HB; [lia|]. cbn [args_loop].
+    step_rec. destruct (try_eat K_COMMA ts0) as [[c ts2]|] eqn:Hc; [|discriminate].
+    apply try_eat_len in Hc. apply IH; lia.
+  Qed.
+
+  Lemma parse_call_nf : forall callee lp ts, (len ts < B)%nat -> parse_call rec callee lp ts <> PFuel.
+  Proof.
+    intros callee lp ts HB. unfold parse_call. apply pbind_nf.
+    - destruct (try_eat K_RPAREN ts) as [[rp ts1]|]; [discriminate|].
+      apply pbind_nf; [apply args_loop_nf; lia|]. intros [args ts1] _. step_eat. discriminate.
+    - intros [[args rp] ts'] _. step_range. discriminate.
+  Qed.
+
+  Lemma nud_fn_nf : forall n bp t ts, (len ts < B)%nat -> nud_fn rec n bp t ts <> PFuel.
+  Proof.
+    intros n bp t ts HB. destruct n; cbn [nud_fn]; try discriminate.
+    - destruct (num_parse (t_lexeme t)); discriminate.
+    - destruct (str_value (t_lexeme t)); discriminate.
+    - destruct (try_eat K_COLON ts) as [[c ts1]|] eqn:Hc.
+      + step_eat. step_range. discriminate.
+      + destruct (kind_is (peek ts) K_RBRACKET).
+        * step_eat. step_range. discriminate.
+        * step_rec. destruct (try_eat K_COLON ts0) as [[c ts2]|] eqn:Hc2.
+          -- apply try_eat_len in Hc2. step_rec. apply pbind_nf.
+             ++ destruct (try_eat K_COMMA ts1) as [[c2 ts4]|] eqn:Hc3; [|discriminate].
+                apply try_eat_len in Hc3. apply pairs_loop_nf; lia.
+             ++ intros [kvs ts4] _. step_eat. step_range. discriminate.
+          -- apply pbind_nf.
+             ++ destruct (try_eat K_COMMA ts0) as [[c2 ts2]|] eqn:Hc3; [|discriminate].
+                apply try_eat_len in Hc3. apply elems_loop_nf; lia.
+             ++ intros [es ts2] _. step_eat. step_range. discriminate.
+    - apply pbind_nf; [apply fields_loop_nf; lia|]. intros [fs ts1] _. step_eat. step_range. discriminate.
+    - step_rec. step_eat. step_range. discriminate.
+    - step_rec. step_range. discriminate.
+  Qed.
+
+  Lemma led_fn_nf : forall l bp left t ts, (len ts < B)%nat -> led_fn rec l bp left t ts <> PFuel.
+  Proof.
+    intros l bp left t ts HB. destruct l; cbn [led_fn].
+    - step_rec. step_range. discriminate.
+    - step_rec. step_range. discriminate.
+    - step_rec. step_range. discriminate.
+    - step_range. discriminate.
+    - step_rec. step_eat. step_rec. step_range. discriminate.
+    - rewrite eat_peek_tl. step_range. pose proof (len_tl ts) as Htl.
+      destruct (try_eat K_LPAREN (tl ts)) as [[lp ts2]|] eqn:Hlp; [|discriminate].
+      apply try_eat_len in Hlp. apply parse_call_nf. lia.
+    - apply parse_call_nf. exact HB.
+    - step_rec. step_eat. step_range. discriminate.
+  Qed.
+
+  Lemma led_fn_len : forall l bp left t ts e rest,
+    led_fn rec l bp left t ts = POk (e, rest) -> (len rest <= len ts)%nat.
+  Proof.
+    intros l bp left t ts e rest H. apply (led_fn_run g rec Hrec_run) in H. apply (run_len g _ Hg H).
+  Qed.
+
+  Lemma infix_loop_nf : forall n rbp left ts,
+    (len ts < n)%nat -> (len ts <= B)%nat -> infix_loop g rec n rbp left ts <> PFuel.
+  Proof.
+    induction n as [|n IH]; intros rbp left ts Hn HB; [lia|]. cbn [infix_loop].
+    destruct (Z.ltb rbp (infix_lbp g (peek ts))); [|discriminate].
+    rewrite eat_peek_tl. destruct (get (t_kind (peek ts)) (g_infix g)) as [[bp l]|] eqn:Hget; [|discriminate].
+    destruct ts as [|t0 r0].
+    { change (get K_EOF (g_infix g) = Some (bp, l)) in Hget. destruct Hg as [_ Hi]. rewrite Hi in Hget. discriminate. }
+    cbn [peek tl]. unfold len in Hn, HB. cbn [Datatypes.length] in Hn, HB. fold (len r0) in Hn, HB.
+    apply pbind_nf; [apply led_fn_nf; lia|]. intros [left' ts2] Hx. apply led_fn_len in Hx.
+    destruct (infix_n_ok left'); [|discriminate]. apply IH; lia.
+  Qed.
+
+  Lemma expr_step_nf : forall rbp ts, (len ts <= B)%nat -> expr_step g rec rbp ts <> PFuel.
+  Proof.
+    intros rbp ts HB. unfold expr_step. rewrite eat_peek_tl.
+    destruct (get (t_kind (peek ts)) (g_prefix g)) as [[bp n]|] eqn:Hget; [|discriminate].
+    destruct ts as [|t0 r0].
+    { change (get K_EOF (g_prefix g) = Some (bp, n)) in Hget. destruct Hg as [Hp _]. rewrite Hp in Hget. discriminate. }
+    cbn [peek tl]. unfold len in HB. cbn [Datatypes.length] in HB. fold (len r0) in HB.
+    apply pbind_nf; [apply nud_fn_nf; lia|]. intros [lft ts2] Hx.
+    apply (nud_fn_run g rec Hrec_run) in Hx. apply (run_len g _ Hg) in Hx. cbn [P_len] in Hx.
+    apply infix_loop_nf; lia.
+  Qed.
+End NoFuel.
+
+Lemma p_expr_nf : forall g, eof_free g -> forall f rbp ts, (len ts < f)%nat -> p_expr g f rbp ts <> PFuel.
+Proof.
+  intros g Hg. induction f as [|f IH]; intros rbp ts Hf; [lia|]. cbn [p_expr].
+  apply (expr_step_nf g Hg (p_expr g f) f).
+  - intros. eapply p_expr_run; eauto.
+  - exact IH.
+  - lia.
+Qed.
+
+Lemma no_fuel_partial : forall ops ts, no_eof_operator ops = true -> parse_tokens ops ts <> PFuel.
+Proof.
+  intros ops ts H. unfold parse_tokens. apply pbind_nf.
+  - apply p_expr_nf; [apply no_eof_operator_grammar; exact H | lia].
+  - intros [e rest] _. destruct rest; discriminate.
+Qed.
+
+Lemma no_fuel_table_ok : forall ops ts, table_ok ops = true -> parse_tokens ops ts <> PFuel.
+Proof. intros ops ts H. apply no_fuel_partial. apply table_ok_no_eof_operator. exact H. Qed.
